@@ -20,7 +20,7 @@ with open(os.path.join(os.path.dirname(os.path.dirname(os.path.abspath(__file__)
 
 QUOTED = re.compile(r'"([^"]*)"')
 VN = 0x6162636465666768   # vnode ids with no zero byte: a text slice that starts one byte early would show it
-NPAT = 9
+NPAT = 10
 ANSI = re.compile(r'\x1b\[[0-9;]*m')
 INVISIBLE = ['\t', 'a', '\u00a0', '\u200d', 'b', '\u3000', '\u00ad', '\uf8ff', '\u202f']
 SPECIAL = '{}%s\\{0}$(['
@@ -48,6 +48,8 @@ def text(L, pattern):
     elif pattern == 7:   # a relative text that ENDS with the characters recorders use as filler ('>'), preceded by a dot run
         k = min(L, 3)
         s = ('a' + '.' * (L - k - 1) if L - k >= 1 else '') + '>' * k
+    elif pattern == 9:   # a relative text that BEGINS with U+FEFF (EF BB BF: a legal character of a file name, not a mark of the decoder)
+        s = ('\ufeff' + 'n' * (L - 3)) if L >= 3 else 'n' * L
     elif pattern == 8:   # terminal escape sequences inside the text (a file may be called anything)
         unit = '\x1b[31mr\x1b[0m'
         s = (unit * (L // len(unit) + 1))[:L]
@@ -342,7 +344,7 @@ class C08(Check):
                         for sig, detail in judge_headless(kind, L, pattern):
                             acc.violation(sig, {'kind': 'headless', 'what': kind, 'len': L, 'pattern': pattern}, detail)
                         acc.case(nontrivial=True, transitions=nrec, state=h64((kind, 'headless')))
-                    if pattern in (5, 6, 7, 8) and (L % 7 == 3 or L in (24, 56, 184)):
+                    if pattern in (5, 6, 7, 8, 9) and (L % 7 == 3 or L in (24, 56, 184)):
                         for sig, detail in judge_listing(kind, L, pattern):
                             acc.violation(sig, {'kind': 'listing', 'what': kind, 'len': L, 'pattern': pattern}, detail)
                         acc.case(nontrivial=True, transitions=2 * nrec, state=h64((kind, 'listing')))
